@@ -445,6 +445,48 @@ func runJitConc(thorough bool) []jitOut {
 			res = append(res, o)
 		}
 	}
+	// attempt 0 under contention: half of the goroutines keep the shared source busy while the
+	// others ask for the first delay again and again (distinct values only)
+	for _, s := range []string{"linear-jitter", "exponential-jitter"} {
+		f := backoff.GetByName(s)
+		busy := backoff.GetByName("exponential-jitter")
+		n := 3000
+		if thorough {
+			n = 60000
+		}
+		seen := make([]map[int64]bool, g)
+		var stop int32
+		desc := s + " back-off call for attempt 0 while the source is busy"
+		parallel("jitconc0:"+s, g, func(t int, fl *flight) {
+			if t%2 == 1 {
+				for atomic.LoadInt32(&stop) < int32((g+1)/2) {
+					fl.begin(t, &desc)
+					busy(10)
+					fl.end(t)
+				}
+				return
+			}
+			seen[t] = map[int64]bool{}
+			for k := 0; k < n; k++ {
+				fl.begin(t, &desc)
+				seen[t][int64(f(0))] = true
+				fl.end(t)
+			}
+			atomic.AddInt32(&stop, 1)
+		})
+		all := map[int64]bool{}
+		for _, m := range seen {
+			for v := range m {
+				all[v] = true
+			}
+		}
+		o := jitOut{Strategy: s, Attempt: 0}
+		for v := range all {
+			o.Obs = append(o.Obs, v)
+		}
+		sort.Slice(o.Obs, func(a, b int) bool { return o.Obs[a] < o.Obs[b] })
+		res = append(res, o)
+	}
 	return res
 }
 
